@@ -115,6 +115,8 @@ partial def tplOfSExp (names : List String) : GE.Codec.SExp → Option (Tpl TE)
   | .list (.atom "cond" :: brs) => (branchesOfSExps names brs).map .cond
   | .list (.atom "for" :: v :: .str item :: .str index :: ch) => do
     some (.loop (← teOfSExp names v) (← tplsOfSExps (names ++ [item, index]) ch))
+  | .list (.atom "forkey" :: v :: .str key :: .str item :: .str index :: ch) => do
+    some (.loopK (← teOfSExp names v) key (← tplsOfSExps (names ++ [item, index]) ch))
   | _ => none
 partial def tplsOfSExps (names : List String) : List GE.Codec.SExp → Option (Tpls TE)
   | [] => some .nil
@@ -318,13 +320,17 @@ def step (fs : List String) : String :=
     -- re-evaluated), each node with the step that created it
     match parseSExp tsx, parseSExp d0 with
     | some (.list (.atom "tmpl" :: ns)), some d0x =>
-      match tplsOfSExps [] ns, jOfSExp d0x, steps.mapM (fun x => (parseSExp x).bind jOfSExp) with
+      -- (a step whose whole data tree is `true` is written with a leading `!`)
+      let stepOf (x : String) : Option (Bool × GE.TagSem.J) :=
+        let whole := x.startsWith "!"
+        ((parseSExp (if whole then (x.drop 1).toString else x)).bind jOfSExp).map fun d => (whole, d)
+      match tplsOfSExps [] ns, jOfSExp d0x, steps.mapM stepOf with
       | some ts, some D0, some Ds =>
         let t : GE.TagSem.Tpl GE.TagSem.TE := .block ts
         let n0 := GE.TagSem.create GE.TagSem.jsonSem 0 D0 [] t
-        let (_, _, outs) := Ds.foldl (fun (st : Nat × GE.TagSem.Node GE.TagSem.J × List String) D =>
+        let (_, _, outs) := Ds.foldl (fun (st : Nat × GE.TagSem.Node GE.TagSem.J × List String) (wd : Bool × GE.TagSem.J) =>
           let (now, n, acc) := st
-          let n' := GE.TagSem.update GE.TagSem.jsonSem now D [] () [] t n
+          let n' := GE.TagSem.update GE.TagSem.jsonSem now wd.2 [] wd.1 [] t n
           (now + 1, n', acc ++ [if n'.hasUnsup then "unsupported" else n'.print])) (1, n0, [if n0.hasUnsup then "unsupported" else n0.print])
         "\t".intercalate (outs.map esc)
       | _, _, _ => "bad-tree"
